@@ -167,6 +167,7 @@ enum Plan {
     Float(f64),
     Str(usize, usize),
     Block(usize),
+    Err(i64, i64),
     Raw,
 }
 
@@ -198,6 +199,15 @@ fn plan_item(it: &[u8]) -> Plan {
             }
         }
     }
+    // an error/event queue item `code,"message[;extended]"`
+    if it.contains(&b',') {
+        for (code, ext) in [(-113i64, 0i64), (-171, 1), (-350, 0), (7, 2), (-222, 1)] {
+            let mut probe: Vec<u8> = Vec::new();
+            if mk_error(code, ext).format_response_data(&mut probe).is_ok() && probe == it {
+                return Plan::Err(code, ext);
+            }
+        }
+    }
     Plan::Raw
 }
 
@@ -207,6 +217,10 @@ fn write_item(r: &mut ResponseUnit, it: &[u8]) {
         Plan::Float(v) => r.data(v),
         Plan::Str(a, b) => r.data(&it[a..b]),
         Plan::Block(a) => r.data(Arbitrary(&it[a..])),
+        Plan::Err(code, ext) => {
+            let e = own(|| mk_error(code, ext));
+            r.data(e)
+        }
         Plan::Raw => r.data(Character(it)),
     };
 }
